@@ -1085,6 +1085,9 @@ class DataT:
             if k == 'S' or tk == 'S':
                 if k == 'E' and s == 1 and tk == 'S':
                     raise AnalysisError('unsupported', 'broadcast of an enumerated dim over a spatial axis')
+                if s != ts and s == 1:
+                    raise AnalysisError('unsupported', 'broadcast of a unit axis across the enumerated / spatial '
+                                        'typing (%s to %s)' % (self.dims, list(dims)))
                 if s != ts:
                     raise PyExc('RuntimeError', 'The size of tensor a (%s) must match the size of tensor b (%s)' % (s, ts))
                 if k != tk:
@@ -1106,10 +1109,10 @@ class DataT:
         out = []
         for (ka, sa), (kb, sb) in zip(da, db):
             if ka == 'S' and kb == 'S':
-                if sa != sb:
+                if sa != sb and 1 not in (sa, sb):
                     raise PyExc('RuntimeError', 'The size of tensor a (%d) must match the size of tensor b (%d)'
                                 % (sa, sb))
-                out.append(('S', sa))
+                out.append(('S', max(sa, sb)))
             elif ka == 'S' or kb == 'S':
                 s_e = sb if ka == 'S' else sa
                 s_s = sa if ka == 'S' else sb
